@@ -69,7 +69,7 @@ package jet
 //@   check [cache-hit-returns-identical-template-without-loader] {C16} !s.developmentMode && lastret("(*Set).getTemplateFromCache", 1) && visits("(*Set).getTemplateFromCache", 0) == 1 ==> err == nil && t == lastret("(*Set).getTemplateFromCache", 0) && NL == old(NL) && CM == old(CM)
 //@   callsite (*Set).getTemplateFromCache 0 requires [dev-mode-bypasses-the-cache] {C16} !s.developmentMode && templatePath == caller.templatePath
 //@   callsite (*Set).getTemplateFromLoader 0 requires {C16,C15} templatePath == caller.templatePath && cacheAfterParsing == caller.cacheAfterParsing
-//@   callsite (Cache).Put 0 requires [only-successful-loads-are-cached] {C16} lastret("(*Set).getTemplateFromLoader", 1) == nil && caller.cacheAfterParsing && !s.developmentMode && t == lastret("(*Set).getTemplateFromLoader", 0) && c == s.cache
+//@   callsite (Cache).Put 0 requires [only-successful-loads-are-cached] {C16,C02} lastret("(*Set).getTemplateFromLoader", 1) == nil && caller.cacheAfterParsing && !s.developmentMode && t == lastret("(*Set).getTemplateFromLoader", 0) && c == s.cache
 //@   callsite (Cache).Put 0 requires [cached-under-a-probed-name] {C16} exists(j, 0, len(s.extensions), templatePath == caller.templatePath + s.extensions[j])
 //@   callsite (Cache).Put 0 requires [cache-paths-are-canonical] {C15} Canon(templatePath)
 
